@@ -426,7 +426,12 @@ def run_case(cb, agg, fact, weights, ignore, xdt, st, formats=FORMATS, fact_form
         for f in others:
             if have[f][1] is not None:
                 keep = keep & ~have[f][1]
-        ident = all(np.array_equal(have[f][0][keep], ref_v[keep]) for f in others)
+        # "identical values elsewhere": up to floating-point rounding (the tolerance of C03's quantifier, which C04 inherits:
+        # "for all inputs as in C03"). With non-dyadic weights marginal differencing leaves residues of ~1e-16 that the
+        # plain-replacement path rounds to 0 and the other formats do not; demanding bit-identity was a false alarm of this check.
+        tol_f = S.tolerance(fact, weights, agg, N)
+        with np.errstate(invalid="ignore"):
+            ident = all(have[f][0].shape == ref_v.shape and bool(np.all(np.abs(have[f][0][keep] - ref_v[keep]) <= tol_f)) for f in others)
         if others:
             MON.check(qual + "/formats-identical-values-on-nonmissing-cells", ident,
                   lambda: "values: NaN format %r, %s" % (ref_v.tolist(), ", ".join("%s %r" % (f, have[f][0].tolist()) for f in others)), {"case": case}, c2)
